@@ -20,7 +20,7 @@ ev = {
  "coverage": {
   "evaluations": tot("runs") + sum(p["runs"] for p in sysparts),
   "distinct_nontrivial": tot("distinct_nontrivial_runs"),
-  "rule": "one evaluation = one simulated run: 1-4 real caller threads (only one runs at a time; the simulator decides at every sink write, at every operation boundary and - in about half of the multi-threaded runs - at every allocation the library makes inside a display (and, in the f64-fnseam configuration, at every function entry of the library's display path), who proceeds), each performing 1-5 Display operations (quantity value / unit / rate x literal format specification x amount class) into a fault-injecting fmt::Write sink; everything is derived from the run seed = f(VERIF_SEED, run index). A run is non-trivial if the simulation dimension was exercised in it: a thread switch in the middle of a display (at a sink write or at a library allocation), a fired sink error, a fired (and caught) sink panic, or a re-entrant display issued by the sink; runs are distinct by (operation lists, schedule trace) hash. Oracle: every display that completed Ok on a sink that never failed must have delivered exactly the reference-model text (sim/src/model.rs), plus parse-back and fractional-digit checks that bypass the model.",
+  "rule": "one evaluation = one simulated run: 1-4 real caller threads (only one runs at a time; the simulator decides at every sink write, at every operation boundary and - in about half of the multi-threaded runs - at every allocation the library makes inside a display (and, in the f64-fnseam configuration, at every function entry and atomic operation of the library's display path), who proceeds), each performing 1-5 Display operations (quantity value / unit / rate x literal format specification x amount class) into a fault-injecting fmt::Write sink; everything is derived from the run seed = f(VERIF_SEED, run index). A run is non-trivial if the simulation dimension was exercised in it: a thread switch in the middle of a display (at a sink write or at a library allocation), a fired sink error, a fired (and caught) sink panic, or a re-entrant display issued by the sink; runs are distinct by (operation lists, schedule trace) hash. Oracle: every display that completed Ok on a sink that never failed must have delivered exactly the reference-model text (sim/src/model.rs), plus parse-back and fractional-digit checks that bypass the model.",
   "samples": samples,
   "simulated_runs": tot("runs") + sum(p["runs"] for p in sysparts),
   "seeded_search_runs": tot("runs"),
@@ -53,13 +53,13 @@ ev = {
   "per_backend": [{k: p[k] for k in ("backend", "runs", "ops", "ops_judged", "wall_s", "runs_per_hour", "units_available", "units_shown", "types_available")} for p in parts],
   "components": {
     "real_code": ["quantities (from /repo working tree): Quantity::fmt, Unit::fmt, Rate Display, generated Display impls, unit registries", "qty-macros (expands the catalogue and the synthetic types)", "astronomical-quantities (f64 only)", "core::fmt / alloc (std)", "fpdec Display (decimal back-end)"],
-    "simulated": ["fmt::Write sink (seam: scheduling point, fault point, re-entrancy point)", "global allocator (seam: scheduling point at every allocation the library makes inside a display; never a fault point)", "function entries of the library display path (f64-fnseam configuration only: nightly -Zinstrument-mcount, mcount provided by sim/fnseam-rt)", "caller threads' scheduling (baton passing; the OS never chooses)", "the callers themselves (seeded workload)"],
+    "simulated": ["fmt::Write sink (seam: scheduling point, fault point, re-entrancy point)", "global allocator (seam: scheduling point at every allocation the library makes inside a display; never a fault point)", "function entries and atomic operations of the library display path (f64-fnseam configuration only: nightly -Zsanitizer=thread -Zexternal-clangrt, i.e. TSan instrumentation whose callbacks are provided by sim/fnseam-rt instead of the TSan runtime; counted under function_entry_seams)", "caller threads' scheduling (baton passing; the OS never chooses)", "the callers themselves (seeded workload)"],
     "stubbed": [],
   },
  },
  "assumptions": [
   "trusted primitives: the amount type's own Display (std f64 / fpdec Decimal) for |amount| with optional precision, and std's string formatting for unit symbols",
-  "native tiers switch threads only at sink writes, at allocations made by the library inside a display, at function entries (f64-fnseam configuration) and at operation boundaries; pre-emption elsewhere is explored only by the Miri part of the thorough tier (small and probabilistic)",
+  "native tiers switch threads only at sink writes, at allocations made by the library inside a display, at function entries and atomic operations (f64-fnseam configuration) and at operation boundaries; pre-emption elsewhere is explored only by the Miri part of the thorough tier (small and probabilistic)",
   "sampling: a clean batch is evidence, not proof",
  ],
  "wall_s": round(wall, 2),
